@@ -247,6 +247,28 @@ def run(ck, fx, cg, tier):
     ck.floor("R6.sources", "source-side bodies examined", n_src, 2)
     from .. import canary
     canary.require(ck, {"R6.sources"})
+    # ---------------------------------------------------------------- output names under `-o DIRECTORY`
+    # the next stage finds its input by name: `a.b.fml` must become `DIR/a.b.json`. `set_extension` replaces the LAST
+    # extension, so it must be applied to the input's full file name; applied to `file_stem()` it strips a second
+    # component (`a.json`), which collides with the output of the sibling program `a.fml`
+    n_name = 0
+    for b in fx.hir:
+        if b["from_expansion"] or b.get("crate", "fml") != "fml":
+            continue
+        calls = {}
+        for n, ps in walk_body(b):
+            if n.get("k") == "MethodCall" and n.get("callee"):
+                cd = callee_def(n) or ""
+                if cd in ("std::path::Path::file_stem", "std::path::Path::file_name", "std::path::PathBuf::set_extension", "std::path::Path::with_extension",
+                          "std::path::Path::file_prefix"):
+                    calls.setdefault(cd.rsplit("::", 1)[1], n)
+        if "set_extension" in calls or "with_extension" in calls:
+            n_name += 1
+            bad = [k for k in ("file_stem", "file_prefix") if k in calls]
+            ck.ob("R6.naming", "%s|extension replaced on the full file name" % b["path"], not bad, loc(calls.get("set_extension") or calls.get("with_extension")),
+                  "the output name is derived with %s" % ("file_name() + set_extension()" if not bad else
+                  "%s() and then set_extension(): a second dot-separated component of the input name is lost, two inputs map to one output file and the next stage is handed another program" % bad[0]))
+    ck.floor("R6.naming", "places that derive an output file name", n_name, 1)
     # ---------------------------------------------------------------- depth
     n_depth = 0
     for b in fx.hir:
